@@ -7,6 +7,7 @@ import ast
 import functools
 import importlib.util
 import io
+import keyword
 import os
 import sysconfig
 import tokenize
@@ -586,7 +587,47 @@ def program(draw, max_lines: int = 60, layout: bool = True):
     if layout and draw(st.integers(0, 2)):
         src = mutate_layout(src, draw(layout_draws))
 
+    mb = draw(st.integers(0, 17))
+
+    if mb < 3:  # one program in six: identifiers renamed consistently to non-ASCII names (byte columns != character columns)
+        src = multibyte_variant(src, mb) or src
+
     return src
+
+
+_SOFT_KW = {'match', 'case', 'type', '_'}
+
+
+def multibyte_variant(src: str, sel: int) -> str | None:
+    """Append a non-ASCII (NFKC-stable) suffix to every identifier, consistently; None if CPython rejects the result."""
+
+    try:
+        toks = list(tokenize.generate_tokens(io.StringIO(src).readline))
+    except (tokenize.TokenError, IndentationError, SyntaxError):
+        return None
+
+    suffix = ('é', '日本', 'ñö')[sel % 3]
+    lines = src.split('\n')
+    edits = []
+
+    for t in toks:
+        if (t.type == tokenize.NAME and not keyword.iskeyword(t.string) and t.string not in _SOFT_KW
+            and not (t.string.startswith('__') and t.string.endswith('__'))
+        ):
+            edits.append((t.end[0] - 1, t.end[1], suffix))
+
+    for ln, col, sfx in sorted(edits, reverse=True):
+        lines[ln] = lines[ln][:col] + sfx + lines[ln][col:]
+
+    new = '\n'.join(lines)
+
+    try:
+        if S(ast.parse(new)).count('(') != S(ast.parse(src)).count('('):  # same shape (a renamed soft keyword could change the parse)
+            return None
+    except (SyntaxError, ValueError, RecursionError):
+        return None
+
+    return new
 
 
 def _segment(blines: list[bytes], n: ast.AST) -> str:
